@@ -39,8 +39,8 @@ def install(ctx):
                               {'before': s0, 'after': s1})
         for k in f0:
             same = probe.same(f0[k], f1[k]) if isinstance(f0[k], np.ndarray) or f0[k] is None else f0[k] == f1[k]
-            if not same:
-                ctx.violation('fit-modifies-fitter', 'Fitter.fit modified the fitter state (%s)' % k, {'field': k})
+            if not same:       # not part of the statement (a cache would be legitimate): history pairs decide
+                ctx.event('fitter-state-changed-by-fit:' + k)
         if result.source is not source:
             ctx.event('result.source is a different object')
         return True
@@ -50,6 +50,29 @@ def install(ctx):
 
 def by_name(info):
     return {str(n).strip(): (float(info.av[i]), float(info.sc[i]), float(info.chi2[i])) for i, n in enumerate(info.model_name)}
+
+
+def fluxes_by_name(info):
+    if info.model_fluxes is None:
+        return None
+    mf = np.asarray(info.model_fluxes, float)
+    return {str(n).strip(): mf[i].copy() for i, n in enumerate(info.model_name)}
+
+
+def compare_fluxes(ctx, key, what, a, b, perm, wit, tol=1e-9, shift=0.0):
+    """a, b: name -> model_fluxes row (log10); b's row is expected to be a's row taken in order perm (+ shift)"""
+    if a is None or b is None:
+        if (a is None) != (b is None):
+            ctx.violation(key + ':model-fluxes', what + ': model fluxes present in only one of the results', wit)
+        return
+    for name in a:
+        if name not in b:
+            continue
+        x, y = a[name][perm] + shift, b[name]
+        both = np.isfinite(x) & np.isfinite(y)
+        if np.any(np.isfinite(x) != np.isfinite(y)) or np.any(np.abs(x[both] - y[both]) > tol * (1 + np.abs(x[both]) + abs(shift))):
+            ctx.violation(key + ':model-fluxes', what + ' (model fluxes reported with the fit)', dict(wit, model=name, first=x, second=y))
+            return
 
 
 def tolerances(valid, flux, err, k, mode):
@@ -141,8 +164,9 @@ def run(ctx):
                 'preceding fits, sampled up to 6) incl. bit-identical source and fitter state around every fit; a case = one pair; non-trivial = regular regression')
     ctx.assume('filter permutation re-associates sums: compared with 1e-9/cond on parameters and an objective-scaled tolerance on chi^2',
                'model permutation and history: bit-identical (NaN-aware)', 'tie order is free: comparison is per model name')
-    ctx.require_events('Fitter.fit:post', 'pair:filter-permutation', 'pair:model-permutation', 'pair:flux-scaling', 'pair:history')
-    ctx.require_regimes('mode:2d', 'mode:3d', 'history:remove_resolved-band-dependent')
+    ctx.require_events('Fitter.fit:post', 'pair:filter-permutation', 'pair:model-permutation', 'pair:flux-scaling', 'pair:history',
+                       'history:same-flags-other-errors', 'history:two-live-fitters', 'pair:filter-permutation:remove_resolved')
+    ctx.require_regimes('mode:2d', 'mode:3d', 'history:remove_resolved-band-dependent', 'history:v2-memmap')
     n_sets = 1 if ctx.quick else 4
     for iset in range(n_sets):
         for mode in ('2d', '3d'):
@@ -159,14 +183,21 @@ def run(ctx):
                 sel = [perms[i] for i in rng.choice(len(perms), 40, replace=False)]
             else:
                 sel = [p for i, p in enumerate(perms) if ctx.mine(i + iset)]
-            ref = [by_name(base.fit(gen.build_source('s', v, f, e))) for (v, f, e, _, _) in sources[:2]]
+            ref = []
+            for (v, f, e, _, _) in sources[:2]:
+                i0 = base.fit(gen.build_source('s', v, f, e))
+                ref.append((by_name(i0), fluxes_by_name(i0)))
             for p in sel:
                 p = list(p)
                 fp = gen.make_fitter([st['bn'][i] for i in p], st['theta'][p], st['dir'], st['law'], (-5.0, 40.0), st['dr'])
-                for (v, f, e, cond, wsum), r0 in zip(sources[:2], ref):
-                    r1 = by_name(fp.fit(gen.build_source('s', v[p], f[p], e[p])))
-                    compare(ctx, 'filter-permutation-changes-fit', 'permuting filters (photometry permuted alike) changed the fit',
-                            r0, r1, cond, wsum, dict(mode=mode, perm=p, valid=v, flux=f, error=e, k=k))
+                for (v, f, e, cond, wsum), (r0, m0) in zip(sources[:2], ref):
+                    i1 = fp.fit(gen.build_source('s', v[p], f[p], e[p]))
+                    r1 = by_name(i1)
+                    wit_p = dict(mode=mode, perm=p, valid=v, flux=f, error=e, k=k)
+                    if compare(ctx, 'filter-permutation-changes-fit', 'permuting filters (photometry permuted alike) changed the fit',
+                               r0, r1, cond, wsum, wit_p):
+                        compare_fluxes(ctx, 'filter-permutation-changes-fit', 'permuting filters (photometry permuted alike) changed the fit',
+                                       m0, fluxes_by_name(i1), p, wit_p, tol=50e-9 / cond * max(1.0, float(np.max(np.abs(k)))))
                     ctx.event('pair:filter-permutation')
                     ctx.case(('fperm', iset, mode, tuple(p), ctx.shard), nontrivial=True,
                              sample=dict(kind='filter-permutation', mode=mode, perm=p, valid=v) if len(ctx.samples) < 1 else None)
@@ -180,8 +211,11 @@ def run(ctx):
                                   aperture_dependent=(mode == '3d'), logd_step=0.1, table_order=order)
                 fp = gen.make_fitter(st['bn'], st['theta'], d2, st['law'], (-5.0, 40.0), st['dr'])
                 for (v, f, e, cond, wsum) in sources[:3]:
-                    r0 = by_name(base.fit(gen.build_source('s', v, f, e)))
-                    r1 = by_name(fp.fit(gen.build_source('s', v, f, e)))
+                    i0 = base.fit(gen.build_source('s', v, f, e))
+                    i1 = fp.fit(gen.build_source('s', v, f, e))
+                    r0, r1 = by_name(i0), by_name(i1)
+                    compare_fluxes(ctx, 'model-permutation-changes-fit', 'permuting the models inside the package changed a model\'s fit',
+                                   fluxes_by_name(i0), fluxes_by_name(i1), slice(None), dict(mode=mode, order=order), tol=50e-9 / max(cond, 1e-3) * max(1.0, float(np.max(np.abs(k)))))
                     if mode == '2d':
                         bad = [n for n in r0 if not all((a == b) or (a != a and b != b) for a, b in zip(r0[n], r1.get(n, (None,) * 3)))]
                         if bad:
@@ -197,7 +231,8 @@ def run(ctx):
             # ---- flux scaling (2-D only) ---------------------------------------------
             if mode == '2d':
                 for (v, f, e, cond, wsum) in sources:
-                    r0 = by_name(base.fit(gen.build_source('s', v, f, e)))
+                    i0 = base.fit(gen.build_source('s', v, f, e))
+                    r0, m0 = by_name(i0), fluxes_by_name(i0)
                     for c in [1e-4, 1e-2, 0.5, 3.0, 1e2, 1e4] if ctx.quick else 10.0 ** rng.uniform(-4, 4, 12):
                         c = float(c)
                         f2, e2 = f.copy(), e.copy()
@@ -208,14 +243,32 @@ def run(ctx):
                                 f2[j] = f[j] * c
                             elif fl == 4:
                                 f2[j] = f[j] + math.log10(c)
-                        r1 = by_name(base.fit(gen.build_source('s', v, f2, e2)))
+                        i1 = base.fit(gen.build_source('s', v, f2, e2))
+                        r1 = by_name(i1)
                         compare(ctx, 'flux-scaling-not-a-scale-shift', 'multiplying fluxes and errors by a constant did not shift scale by -0.5 log10(c) with A_V, chi^2 unchanged',
                                 r0, r1, cond, wsum, dict(mode=mode, c=c, valid=v, flux=f, error=e), shift=-0.5 * math.log10(c))
+                        compare_fluxes(ctx, 'flux-scaling-not-a-scale-shift', 'multiplying fluxes and errors by a constant did not shift the fitted model fluxes by log10(c)',
+                                       m0, fluxes_by_name(i1), slice(None), dict(mode=mode, c=c, valid=v, flux=f, error=e),
+                                       tol=50e-9 / cond * max(1.0, float(np.max(np.abs(k)))), shift=math.log10(c))
                         ctx.event('pair:flux-scaling')
                         ctx.case(('scale', iset, c, ctx.shard, ctx.evaluations), nontrivial=True)
 
             # ---- histories -----------------------------------------------------------
-            history_block(ctx, rng, st, sources, mode, iset, {})
+            # a second live fitter on another package / law / filter set, used between the fits of the histories
+            st_o = make_setup(ctx, rng, mode, n_models=5, nb=4)
+            other = (gen.make_fitter(st_o['bn'], st_o['theta'], st_o['dir'], st_o['law'], (0.0, 20.0), st_o['dr']),
+                     [draw_source(rng, st_o) for _ in range(3)])
+            history_block(ctx, rng, st, sources, mode, iset, {}, other=other)
+            # the same grid as a cube package with single-precision tables (memory-mapped by default)
+            d_v2 = ctx.newdir('c11v2')
+            gen.write_grid_v2(d_v2, st['names'], st['bn'], st['wav'], st['conv'], apertures=st['aps'],
+                              aperture_dependent=(mode == '3d'), logd_step=0.1, fmt='E')
+            st_v2 = dict(st, dir=d_v2)
+            ctx.regime('history:v2-memmap')
+            history_block(ctx, rng, st_v2, sources, mode, iset, {}, other=other, tag='v2-memmap')
+            history_block(ctx, rng, st_v2, sources, mode, iset, dict(use_memmap=False), other=None, tag='v2-nomemmap')
+            ctx.rmdir(d_v2)
+            ctx.rmdir(st_o['dir'])
             if mode == '3d':
                 st_r = make_setup(ctx, rng, mode, n_models=8, nb=nb, resolved=True)
                 src_r = []
@@ -227,11 +280,28 @@ def run(ctx):
                         v[drop] = 0
                     src_r.append((v, f, e, cond, wsum))
                 history_block(ctx, rng, st_r, src_r, mode, iset, dict(remove_resolved=True, use_memmap=False))
+                base_r = gen.make_fitter(st_r['bn'], st_r['theta'], st_r['dir'], st_r['law'], (-5.0, 40.0), st_r['dr'], remove_resolved=True)
+                for ip in range(6 if ctx.quick else 30):
+                    p = list(rng.permutation(nb))
+                    fp = gen.make_fitter([st_r['bn'][i] for i in p], st_r['theta'][p], st_r['dir'], st_r['law'], (-5.0, 40.0), st_r['dr'],
+                                         remove_resolved=True)
+                    for (v, f, e, cond, wsum) in src_r[:2]:
+                        r0 = by_name(base_r.fit(gen.build_source('s', v, f, e)))
+                        r1 = by_name(fp.fit(gen.build_source('s', v[p], f[p], e[p])))
+                        fin = {n: x for n, x in r0.items() if np.isfinite(x[2])}
+                        if set(n for n, x in r1.items() if np.isfinite(x[2])) != set(fin):
+                            ctx.violation('filter-permutation-changes-fit:resolved-set', 'permuting filters changed which models are excluded as resolved',
+                                          dict(mode=mode, perm=p, valid=v))
+                        else:
+                            compare(ctx, 'filter-permutation-changes-fit', 'permuting filters (photometry permuted alike) changed the fit (remove_resolved)',
+                                    fin, r1, max(cond, 1e-3), wsum, dict(mode=mode, perm=p, valid=v, flux=f, error=e, remove_resolved=True))
+                        ctx.event('pair:filter-permutation:remove_resolved')
+                        ctx.case(('fperm-r', iset, ip, ctx.shard, ctx.evaluations), nontrivial=True)
                 ctx.rmdir(st_r['dir'])
             ctx.rmdir(st['dir'])
 
 
-def history_block(ctx, rng, st, sources, mode, iset, fkw):
+def history_block(ctx, rng, st, sources, mode, iset, fkw, other=None, tag=''):
     if True:
         if True:
             def mk():
@@ -243,7 +313,16 @@ def history_block(ctx, rng, st, sources, mode, iset, fkw):
             target = sources[0]
             fresh = mk()
             want = probe.canon_info(fresh.fit(gen.build_source('t', *target[:3])))
-            others = sources[1:]
+            others = list(sources[1:])
+            # sources with the target's flags but other errors / fluxes (anything remembered per flag pattern would show)
+            tv, tf, te = target[:3]
+            for _ in range(2):
+                f2, e2 = tf.copy(), te.copy()
+                reg = (tv == 1) | (tv == 9) | (tv == 0)
+                e2[reg] = te[reg] * rng.uniform(0.2, 5.0, int(reg.sum()))
+                f2[reg] = tf[reg] * rng.uniform(0.5, 2.0, int(reg.sum()))
+                others.append((tv.copy(), f2, e2))
+            ctx.event('history:same-flags-other-errors')
             hists = []
             for L in range(1, 5 if not ctx.quick else 4):
                 hists += list(itertools.permutations(range(len(others)), L))
@@ -253,15 +332,21 @@ def history_block(ctx, rng, st, sources, mode, iset, fkw):
             shared = mk()
             for ih, h in enumerate(hists):
                 ft = shared if ih % 2 else mk()
+                if ih % 5 == 0 and len(h) < 6:
+                    h = tuple(h) + (len(others) - 1 - (ih // 5) % 2,)
                 for j in h:
                     ft.fit(gen.build_source('o%d' % j, *others[j][:3]))
+                    if other is not None and rng.random() < 0.5:      # a second live fitter (another package, law, filters) used in between
+                        of, osrc = other
+                        of.fit(gen.build_source('x', *osrc[int(rng.integers(len(osrc)))][:3]))
+                        ctx.event('history:two-live-fitters')
                 got = probe.canon_info(ft.fit(gen.build_source('t', *target[:3])))
                 diffs = probe.same_canon(want, got)
                 if diffs:
                     ctx.violation('history-dependent-fit', 'a fitter returned a different result for a source after fitting other sources first',
-                                  dict(mode=mode, history=list(map(int, h)), differs=diffs, fitter_options=fkw))
+                                  dict(mode=mode, history=list(map(int, h)), differs=diffs, fitter_options=fkw, package=tag or 'v1'))
                 ctx.event('pair:history')
-                ctx.case(('hist', iset, mode, tuple(map(int, h)), ih % 2, bool(fkw), ctx.shard), nontrivial=True)
+                ctx.case(('hist', iset, mode, tuple(map(int, h)), ih % 2, bool(fkw), tag, ctx.shard), nontrivial=True)
 
 
 def replay(ctx, rec):
